@@ -100,7 +100,7 @@ def parser_key(chk, P, rule):
     """[EAM-Density] keys through ConfigParser(text).eam_density_fs"""
     from .c14 import parse
     ci = P.cls("atsim.potentials.config._config_parser", "ConfigParser")
-    site = ci.lookup("eam_density_fs").site()
+    site = ci.site_of("eam_density_fs")
     for key, (fr, to) in (("Al->Fe", ("Al", "Fe")), (" Fe -> Al ", ("Fe", "Al")), ("A->B", ("A", "B"))):
         out = parse(P, "[EAM-Density]\n%s : as.zero\n" % key)
         r = out[1]
@@ -131,7 +131,7 @@ def builder(chk, P, rule):
     """EAM_Potential_Builder_FS(cp, forms, modifiers, reference_data=rd).eam_potentials on an asymmetric model"""
     from .. import eamrules as E
     ci = P.cls(E.BUILDER_MOD, "EAM_Potential_Builder_FS")
-    site = ci.lookup("eam_potentials").site()
+    site = ci.site_of("eam_potentials")
     pairs = [("Fe", "Al"), ("Al", "Fe"), ("Al", "Al")]
     # concrete definitions as the parser delivers them; Fe->Al and Al->Fe use the same forms and parameters and differ only in
     # where the second range starts, Al->Al only in the marker of that range
@@ -179,7 +179,7 @@ def builder(chk, P, rule):
 def zero_fill(chk, P, rule):
     from .. import eamrules as E
     ci = P.cls(E.BUILDER_MOD, "EAM_Potential_Builder_FS")
-    site = ci.lookup("eam_potentials").site()
+    site = ci.site_of("eam_potentials")
     out = E.build(P, W.make_interp, True, [("Fe", W.param("F_Fe"))], [(("Fe", "Al"), W.param("declared_Fe_Al"))])
     if out[1] != "ok":
         chk.ob(rule, "an under-specified Finnis-Sinclair model builds (undeclared functions are zero-filled)", False, site=site, found=out[2],
@@ -201,7 +201,7 @@ def zero_fill(chk, P, rule):
                        site=site, found=val if got is not None else "no entry", expect="0.0 at every r", key="%s|zero|%s->%s" % (rule, a, bb))
     # the plain EAM builder: a species with a density but no embedding function, and one with an embedding function but no density
     ci0 = P.cls(E.BUILDER_MOD, "EAM_Potential_Builder")
-    site0 = ci0.lookup("eam_potentials").site()
+    site0 = ci0.site_of("eam_potentials")
     for what, embed, dens, missing_attr, kept in (
             ("embedding", [("Al", W.param("F_Al"))], [("Al", W.param("rho_Al")), ("Cu", W.param("rho_Cu"))], "embeddingFunction", ("Al", "embeddingFunction", "F_Al")),
             ("density", [("Al", W.param("F_Al")), ("Cu", W.param("F_Cu"))], [("Al", W.param("rho_Al"))], "electronDensityFunction", ("Al", "electronDensityFunction", "rho_Al"))):
